@@ -82,7 +82,7 @@ MIN_MONITORS = {"*": {"grid.formula": 20, "grid.count": 20, "index.slim_for_sub_
 
 SUB_MAX = 8
 FRACS = (0.5, 0.99, 0.9999)
-TOLS = (None, 1e-3, 1e-1)
+TOLS = (None, 1e-3, 1e-1, 0.0)
 SCHEDULES = ([2, 4], [2, 4, 8], [3, 5], [4], [1, 2, 4], [1, 4])
 SCHEDULES_THOROUGH = SCHEDULES + ([2, 4, 8, 16],)
 TIE = 1e-9
@@ -614,6 +614,19 @@ def check_adaptive(ctx, i):
                   got=lambda: p.log[0][1] if p.log else None, variant=variant, function=fd, **W)
         if sub is not None:
             check_dispatch(ctx, p, res, gin, m, scales, origin, sub, f, fd, variant, dict(W, sub_size_read_from_probe=sub), adaptive=True)
+    # the default scheme on a grid that is uniformly spaced but DISPLACED from its mask's pixel centres (a constant deflection, an
+    # off-centre extent): the function is evaluated at the coordinates the caller passed (plain evaluation for sub-size one)
+    if i % 3 == 0:
+        shift = np.array([0.37 * scales[0], -0.23 * scales[1]])
+        shifted = ref.slim_centres(m, scales, origin) + shift
+        gsh = aa.Grid2D(values=shifted.copy(), mask=mask)
+        p1 = ctx.profiles["VerifC09Ones"](f, centre=centre)
+        okd, resd = ctx.guarded("decorator.exception", lambda: p1.raw(gsh))
+        if okd:
+            expd = np.asarray(f(shifted), dtype=float)
+            gotd = np.asarray(_np(resd.slim) if hasattr(resd, "slim") else _np(resd), dtype=float).reshape(-1)
+            ctx.check(gotd.shape == expd.shape and ctx.close(gotd, expd, 1e-10, scale=func_scale(fd, expd)), "decorator.plain.displaced_uniform_grid",
+                      shift=shift, function=fd, expected=expd, got=gotd, received=lambda: p1.log[0][1] if p1.log else None, **W)
     cls = mask_classes(m, fam, scales, origin) + ["adaptive:" + name, "func:" + fd["kind"]]
     if sub is not None:
         cls.append("adaptive_map:" + ("all_ones" if set(sub) == {1} else "mixed" if len(set(sub)) > 1 else "uniform_%d" % sub[0]))
@@ -692,7 +705,7 @@ def check_iterate(ctx, i):
         # piecewise-constant functions on power-of-two schedules: thresholds that are met EXACTLY (equal levels at accuracy 1.0,
         # levels 1 and 2 at accuracy 0.5)
         frac = (1.0, 0.5, 0.75)[j % 3]
-    tol = TOLS[int(r.integers(3))]
+    tol = TOLS[int(r.integers(4))]
     how = ("raw", "sampler", "stacked")[int(r.integers(3))]
     run_iterate(ctx, "iterate:%d" % i, m, fam, scales, origin, f, fd, steps, frac, tol, how, ())
     if i % 3 == 0:
